@@ -240,3 +240,60 @@ def asan_reader_sweep(ck, tier, wd, rnd):
             ended[kind or "exit"] = ended.get(kind or "exit", 0) + 1
     ck.extra["alloc_asan_runs"] = len(jobs); ck.extra["alloc_asan_process_ended"] = ended
     return out
+
+
+def asan_update_sweep(ck, tier, wd, rnd):
+    """C17 / C10: the documented update (scan, copy from a local source, missing ranges, their rendering, multipart rounds fed
+    in fragments) under ASan/UBSan while every allocation made by zchunk's own code is refused in turn.  As in
+    asan_reader_sweep: heap corruption is a memory-safety violation, a stop on NULL is recorded.  Returns [(what, script)]"""
+    import re
+    from concurrent.futures import ThreadPoolExecutor
+    from . import delta
+    cA = [b""] + [corpus.text(rnd, n) for n in (300, 3300, 200, 4010)]
+    cB = [b""] + [cA[1], corpus.rand(rnd, 3500), cA[4], corpus.text(rnd, 150), cA[2], corpus.rand(rnd, 700), corpus.text(rnd, 90)]
+    jobs = []
+    for comp, limit, frag in ((0, 2, 977), (2, -1, 61)):
+        A = ref.build_file(cA, comp_type=comp, hash_type=1, chunk_hash_type=3, level=3)[0]
+        B = ref.build_file(cB, comp_type=comp, hash_type=1, chunk_hash_type=3, level=3)[0]
+        base = delta.Scenario("au%d-base" % comp, wd, B, b"", sources=[A], limit=limit, frag=frag); base.write_files()
+        L = base.script().splitlines()
+        i0 = [i for i, l in enumerate(L) if l.startswith("ctx ")][0]
+        body = "\n".join(L) + "\n"
+        L2 = list(L); L2.insert(i0, "alloc_arm 0"); L2.insert(-1, "alloc_stats")
+        st = [e for e in common.run_driver("\n".join(L2) + "\n", "asan") if e["op"] == "alloc_stats"]
+        n = st[0]["count"] if st else 0
+        for k in _points(n, tier, rnd, 60):
+            sc = delta.Scenario("au%d-a%d" % (comp, k), wd, B, b"", sources=[A], limit=limit, frag=frag); sc.write_files()
+            lines = sc.script().splitlines(); lines.insert(i0, "alloc_arm %d 1" % k)
+            jobs.append((comp, k, n, "\n".join(lines) + "\n", sc))
+    def work(j):
+        comp, k, n, s, _sc = j
+        errp = os.path.join(wd, "au-%d-%d.err" % (comp, k))
+        ev = common.run_driver(s, "asan", None, 180, errp)
+        return ev, (open(errp, "rb").read().decode("latin1") if os.path.exists(errp) else "")
+    with ThreadPoolExecutor(max_workers=common.NCPU) as ex:
+        res = list(ex.map(work, jobs))
+    out = []; ended = {}; seen = set()
+    for (comp, k, n, s, sc), (ev, rep) in zip(jobs, res):
+        ck.case(("alloc-asan-update", comp, k))
+        m = re.search(r"ERROR: AddressSanitizer: ([a-z\-]+)", rep)
+        kind = m.group(1) if m else None
+        if any(e["op"] == "Hang" for e in ev):
+            kind = "hang"
+        if kind in ("double-free", "heap-use-after-free", "heap-buffer-overflow", "stack-buffer-overflow", "global-buffer-overflow", "attempting", "bad-free", "hang"):
+            summ = [x for x in rep.splitlines() if x.startswith("SUMMARY")]
+            key = (kind, summ[0][:120] if summ else "")
+            if key not in seen:
+                seen.add(key)
+                frames = [x.strip()[:110] for x in rep.splitlines() if "/src/lib/" in x or "/src/zck" in x][:8]
+                # a replay that stands alone: B, the source and the target as it was before the run, next to the script
+                for item in delta.replay_files(sc):
+                    src, data = (item if isinstance(item, tuple) else (item, None))
+                    keep = os.path.join(common.REPLAY, "%s-%s" % (ck.prop, os.path.basename(src)))
+                    open(keep, "wb").write(data if data is not None else open(src, "rb").read())
+                    s = s.replace(src, keep)
+                out.append(("update (compression %d) with allocation %d of %d refused: %s %s ; frames: %s" % (comp, k, n, kind, " | ".join(summ)[:300], " < ".join(frames)), s))
+        elif kind or any(e["op"] == "Crash" for e in ev):
+            ended[kind or "exit"] = ended.get(kind or "exit", 0) + 1
+    ck.extra["alloc_asan_update_runs"] = len(jobs); ck.extra["alloc_asan_update_process_ended"] = ended
+    return out
